@@ -49,6 +49,7 @@ package agessh
 //@   ensures#shape err == nil ==> stanzas[0].Type == "ssh-rsa" && len(stanzas[0].Args) == 1 && stanzas[0].Args[0] == fpof(r.sshKey) && bytes(stanzas[0].Body) == oaepenc(id(r.pubKey), old(bytes(fileKey)), OAEPLABEL, old($draws))   [C01 C05]
 //@   ensures#frame r.sshKey == old(r.sshKey) && r.pubKey == old(r.pubKey)                                         [C20]
 //@   fresh stanzas when err == nil
+//@   modifies $draws
 
 //@ func (*RSAIdentity).unwrap(i, block) (fk, err)
 //@   requires block != nil && i.sshKey != nil
@@ -58,6 +59,7 @@ package agessh
 //@   ensures#nil err != nil ==> fk == nil                                                                         [C01 C04]
 //@   ensures#ok err == nil ==> block.Type == "ssh-rsa" && block.Args[0] == fpof(i.sshKey) && bytes(fk) == oaepdec(id(i.k), bytes(block.Body), OAEPLABEL)   [C01 C04 C05]
 //@   ensures#frame i.k == old(i.k) && i.sshKey == old(i.sshKey)                                                   [C20]
+//@   modifies nothing
 
 //@ pred edKey(shared, eph, their) := sub(hkdfstream(shared, cat(eph, their), EDLABEL), 0, 32)
 //@ pred edTweak(pk) := sub(hkdfstream("", keywire(id(pk)), EDLABEL), 0, 32)
@@ -76,6 +78,7 @@ package agessh
 //@   ensures#draws $draws == old($draws) + 1                                                                     [C06]
 //@   ensures#frame r.sshKey == old(r.sshKey) && r.theirPublicKey == old(r.theirPublicKey)                         [C20]
 //@   fresh stanzas when err == nil
+//@   modifies $draws
 
 //@ func (*Ed25519Identity).unwrap(i, block) (fk, err)
 //@   requires block != nil && i.sshKey != nil && len(i.secretKey) == 32 && len(i.ourPublicKey) == 32
@@ -87,6 +90,7 @@ package agessh
 //@   ensures#tag (block.Type == "ssh-ed25519" && len(block.Args) == 2 && b64rawok(block.Args[1]) && len(unb64raw(block.Args[1])) == 32 && block.Args[0] != fpof(i.sshKey)) ==> err == age.ErrIncorrectIdentity   [C01 C04]
 //@   ensures#nil err != nil ==> fk == nil                                                                         [C01 C04]
 //@   ensures#frame i.secretKey == old(i.secretKey) && i.ourPublicKey == old(i.ourPublicKey) && i.sshKey == old(i.sshKey)   [C20]
+//@   modifies nothing
 
 //@ func NewEd25519Identity(key) (i, err)
 //@   ensures#nil err != nil ==> i == nil
@@ -106,3 +110,32 @@ package agessh
 //@   ensures#cached old(i.decrypted) != nil ==> $ppcalls == old($ppcalls) && i.decrypted == old(i.decrypted)       [C19]
 //@   ensures#validated i.decrypted != old(i.decrypted) ==> old(i.decrypted) == nil && $pkeqn == old($pkeqn) + 1 && $pkeqr && $ppcalls == old($ppcalls) + 1   [C19]
 //@   ensures#typednil i.decrypted != old(i.decrypted) ==> id(i.decrypted) != 0                                     [C19 C14]
+
+//@ func ParseRecipient(s) (r, err)
+//@   ensures#ok err == nil ==> r != nil                                                                            [C14 C18]
+//@   ensures#nil err != nil ==> r == nil                                                                           [C14 C18]
+//@   modifies nothing
+
+//@ func (*RSAIdentity).Unwrap(i, stanzas) (fk, err)
+//@   requires i.sshKey != nil && (forall j in 0..len(stanzas) :: stanzas[j] != nil)
+//@   ensures#nil err != nil ==> fk == nil                                                                          [C01 C04]
+//@   ensures#frame i.k == old(i.k) && i.sshKey == old(i.sshKey)                                                    [C20]
+//@   modifies nothing
+
+//@ func (*Ed25519Identity).Unwrap(i, stanzas) (fk, err)
+//@   requires i.sshKey != nil && len(i.secretKey) == 32 && len(i.ourPublicKey) == 32 && (forall j in 0..len(stanzas) :: stanzas[j] != nil)
+//@   ensures#nil err != nil ==> fk == nil                                                                          [C01 C04]
+//@   ensures#frame i.secretKey == old(i.secretKey) && i.ourPublicKey == old(i.ourPublicKey) && i.sshKey == old(i.sshKey)   [C20]
+//@   modifies nothing
+
+//@ func (*RSAIdentity).Recipient(i) (r)
+//@   ensures#key r != nil && r.sshKey == i.sshKey                                                                  [C01]
+//@   ensures#frame i.k == old(i.k) && i.sshKey == old(i.sshKey)                                                    [C20]
+//@   fresh r
+//@   modifies nothing
+
+//@ func (*Ed25519Identity).Recipient(i) (r)
+//@   ensures#key r != nil && r.sshKey == i.sshKey && same(r.theirPublicKey, i.ourPublicKey)                        [C01]
+//@   ensures#frame i.secretKey == old(i.secretKey) && i.ourPublicKey == old(i.ourPublicKey) && i.sshKey == old(i.sshKey)   [C20]
+//@   fresh r
+//@   modifies nothing
